@@ -568,7 +568,7 @@ def partial_isolation(v: ScalarNF, w: int, form: int):
             cover("child-kwargs")
             p = G2.partial(x=v)
             call_p = lambda: FunctionReferenceWithArguments(p.fn_reference(), (), {"y": 0})  # noqa: E731
-            derive = lambda: p.partial(y=w)  # noqa: E731
+            derive = lambda: p.partial(z=w)  # noqa: E731  (binds a parameter the parent's own calls leave at its default)
             want = {"x": v, "y": 0}
         elif form == 1:
             cover("child-args")
@@ -580,7 +580,7 @@ def partial_isolation(v: ScalarNF, w: int, form: int):
             cover("chain")
             p = G2.partial(x=v)
             call_p = lambda: FunctionReferenceWithArguments(p.fn_reference(), (), {"y": 0})  # noqa: E731
-            derive = lambda: p.partial(y=w).partial(z=w)  # noqa: E731
+            derive = lambda: p.partial(z=w).partial(y=w)  # noqa: E731
             want = {"x": v, "y": 0}
         before = call_p()
         k0, e0 = _key(before), dict(before.effective_kwargs)
@@ -590,5 +590,5 @@ def partial_isolation(v: ScalarNF, w: int, form: int):
         check("deriving-a-partial-does-not-change-the-parent's-key", _key(after) == k0, lambda: (k0, _key(after)))
         check("parent's-effective-kwargs-unchanged", same(after.effective_kwargs, e0) and set(after.effective_kwargs) == set(want),
               lambda: (after.effective_kwargs, e0))
-        check("child-carries-both-bindings", same(qa.effective_kwargs.get("x"), v) and same(qa.effective_kwargs.get("y"), w),
-              lambda: qa.effective_kwargs)
+        check("child-carries-both-bindings", same(qa.effective_kwargs.get("x"), v) and
+              same(qa.effective_kwargs.get("z" if form != 1 else "y"), w), lambda: qa.effective_kwargs)
